@@ -181,7 +181,7 @@ C02_Raises(e, p, m, m2, M) ==
      \/ e.out \in {"ToolStateError", "CoolantStateError"}
      \/ e.out = "ValueError" /\ MayRejectValue(e, p, M)
 C02_OnlyDoc(e, p, m, m2, M) ==
-  Rejected(e) /\ e.call \notin TracerCalls /\ ~HookAlters(e) =>
+  Rejected(e) /\ e.call \notin TracerCalls /\ ~HookAlters(e) /\ ~e.fault =>
      \/ e.out = "ToolStateError"    /\ e.call \in ToolGuarded /\ p.tool
      \/ e.out = "CoolantStateError" /\ e.call \in CoolGuarded /\ p.coolact
      \/ e.out = "ValueError"        /\ MayRejectValue(e, p, M)
@@ -222,7 +222,9 @@ C03_NaN(e, p, m, m2, M) ==
 -----------------------------------------------------------------------------
 (* C05 -- a rejected command has no effect                                  *)
 SingleCmd(e) == e.call \notin TracerCalls \cup CtxCalls
-C05_NoEffect_Ante(e, p, m, m2, M) == Rejected(e) /\ SingleCmd(e)
+\* (a call on which the device link failed -- recorder flag `fault` -- was not refused by the builder: its line reached the
+\*  first writer and its state stands; C05 speaks about refusals)
+C05_NoEffect_Ante(e, p, m, m2, M) == Rejected(e) /\ SingleCmd(e) /\ ~e.fault
 C05_NoEmit(e, p, m, m2, M)   == C05_NoEffect_Ante(e, p, m, m2, M) => e.lines = <<>>
 C05_NoEffect(e, p, m, m2, M) == C05_NoEffect_Ante(e, p, m, m2, M) => e.rep = p
 
